@@ -435,6 +435,13 @@ pub fn e1_check(id: &str) -> Option<Check> {
                 },
             }
         }
+        // exploratory (not registered): the destructor-storm profile under the weak memory model
+        "X12" => {
+            let mut c = e1_check("C11dtor").unwrap();
+            c.profile.modes = (0, 0, 1);
+            c.quick = 300_000;
+            c
+        }
         _ => return None,
     };
     Some(c)
